@@ -315,6 +315,20 @@ def ExtF.onPacket (x : ExtF) (chan : Nat) (data : Bytes) : Except PyErr ExtF :=
     else .ok x
   | .ok _ => .error .indexError
 
+/-! ## `Log.refresh_toc` / reset reply: the log download starts once per refresh
+
+`refresh_toc` sets `self.toc = None` and sends the reset request; the CMD_RESET_LOGGING branch of
+`Log._new_packet_cb` creates the `Toc` and the `TocFetcher` only `if not self.toc` (a `Toc` object is truthy). -/
+
+structure LogStart where
+  tocSet : Bool      -- `self.toc` is a Toc object
+  fetchers : Nat     -- TocFetchers created and started
+  deriving Repr, DecidableEq
+
+def LogStart.refresh (s : LogStart) : LogStart := { s with tocSet := false }
+def LogStart.onResetReply (s : LogStart) : LogStart :=
+  if s.tocSet then s else { tocSet := true, fetchers := s.fetchers + 1 }
+
 /-! ## `PlatformService`: the step that starts the download (once per connection)
 
 `fetch_platform_informations(callback)` asks for the link source (15:1); a reply starting with the magic
